@@ -49,7 +49,8 @@ func (lex *lexer) Lex(out *yySymType) int {
 			tok = LITERAL
 			n, err := strconv.ParseInt(lex.token(), 10, 64)
 			if err != nil {
-				panic(err)
+				// e.g. out of range: a syntax error, not a crash
+				panic(SyntaxError(err.Error()))
 			}
 			out.val = int(n)
 			fbreak;
@@ -58,7 +59,7 @@ func (lex *lexer) Lex(out *yySymType) int {
 			tok = LITERAL
 			n, err := strconv.ParseFloat(lex.token(), 64)
 			if err != nil {
-				panic(err)
+				panic(SyntaxError(err.Error()))
 			}
 			out.val = n
 			fbreak;
